@@ -41,6 +41,17 @@ Line protocol (lean/Drv/C18.lean ↔ harness/src/bin/c18.rs)
          bfdb `bfdb:<payload_size>:<hex payload>:<hex media_type()>:<hex file_name()|->`
   tree:  `S(<uuid>;<togs>;<label>;<id|->;<sig|~>;<salt|~>)[t,…]`, `L<fourcc-letter>(<hex>)`, `U(<uuid>;<hex>)`,
          `M(<togs>;<mt hex>;<fn hex|~>)`   (`~` = None, `-` = empty bytes)
+         constructor forms (the SDK's own way of making boxes): `N(<uuid>;<label>;<salt|~>)[t,…]` =
+         `JUMBFDescriptionBox::new(label, Some(uuid))` then `set_salt` (a refused salt leaves the box unchanged),
+         `m(<mt hex>;<fn hex|~>)` = `JUMBFEmbeddedFileDescriptionBox::new(media_type, file_name)`.
+         A malformed field (bad hex, non-numeric or out-of-range number, wrong arity, trailing text) gives `bad-tree`.
+  mfrom data=<hex> dec=<hex|!|~> enc=<hex|~>
+                     -> `err <class>` | `nosuper` | `ok c=<0|1> t=<m|u|d> tree=<dump> w=<len>:<fnv64>`:
+                        `data` is read with `parse`; `CAIManifest::from` on the result, where Brotli is the table the
+                        harness supplies (`dec` = decompressed payload of the first `brob` child (`-` = empty), `!` =
+                        decompression fails, `~` = not asked; `enc` = compressed form of the manifest's
+                        serialisation, `~` = not asked); `w` = what
+                        `CAIManifest::write_box_payload` writes.
 -/
 namespace C2pa.C18
 
@@ -230,6 +241,36 @@ def Box.ser : Box → Bytes
 def serList : List Box → Bytes
   | [] => []
   | b :: bs => b.ser ++ serList bs
+end
+
+/-! ### the writer's own `u32` arithmetic (`box_size`, `box_payload_size`, `boxes_size!`) -/
+
+/-- `u32` `+` (panics on overflow in a build with overflow checks, wraps otherwise) -/
+def uadd (a b : Nat) : Res Nat := if a + b ≥ 4294967296 then .panic else .ok (a + b)
+
+/-- `len as u32` -/
+def asU32 (n : Nat) : Nat := n % 4294967296
+
+mutual
+/-- `box_size()` as the code computes it: `8 + box_payload_size()`, where the payload size of a super
+box is `0 + desc_box.box_size() + boxes_size!(data_boxes)` and that of the other boxes a `usize`
+length cast to `u32` -/
+def Box.size32 : Box → Res Nat
+  | .super d cs => do
+    let ds ← uadd 8 (asU32 (descPayload d).length)
+    let p ← uadd 0 ds
+    let p ← if cs.isEmpty then .ok p else (do let k ← sizeList32 0 cs; uadd p k)
+    uadd 8 p
+  | .leaf _ data => uadd 8 (asU32 data.length)
+  | .uuid _ data => uadd 8 (asU32 (16 + data.length))
+  | .bfdb t m _ => uadd 8 (asU32 (bfdbPayload t m).length)
+/-- `boxes_size!`: `size = 0; for b in boxes { size += b.box_size()? }` -/
+def sizeList32 : Nat → List Box → Res Nat
+  | acc, [] => .ok acc
+  | acc, b :: bs => do
+    let s ← b.size32
+    let a ← uadd acc s
+    sizeList32 a bs
 end
 
 /-! ### reader -/
@@ -462,6 +503,110 @@ end
 (`Props.C18.parse_total_depth_bounded`). -/
 def parse (x : Bytes) : Res (Box × Nat) := superBox (x.length + 2) x 0 0
 
+/-! ### constructors (`JUMBFDescriptionBox::new`, `set_salt`, `JUMBFEmbeddedFileDescriptionBox::new`) -/
+
+/-- `CString::new(s).unwrap_or_default()`: a string with an interior NUL becomes the empty string -/
+def cstringNew (s : Bytes) : Bytes := if (0 : UInt8) ∈ s then [] else s
+
+/-- `JUMBFDescriptionBox::new(label, Some(uuid))` (the hex decoding of the UUID string is done by the
+caller of the model; `unwrap_or([0; 16])` for a malformed string is the all-zero UUID) -/
+def Desc.new (label uuid : Bytes) : Desc := ⟨uuid, 3, cstringNew label, none, none, none⟩
+
+/-- `set_salt`: `Err(InvalidSalt)` below 16 bytes, otherwise the private box is set and the toggles
+become 19 (whatever they were) -/
+def Desc.setSalt (d : Desc) (salt : Bytes) : Option Desc :=
+  if salt.length < 16 then none else some { d with salt := some salt, toggles := 19 }
+
+/-- the harness ignores a refused salt (the box stays as it was) -/
+def Desc.withSalt (d : Desc) : Option Bytes → Desc
+  | none => d
+  | some s => (d.setSalt s).getD d
+
+/-- `JUMBFEmbeddedFileDescriptionBox::new(media_type, file_name)` -/
+def bfdbNew (mt : Bytes) (fn : Option Bytes) : Box :=
+  .bfdb (if fn.isSome then 1 else 0) (cstringNew mt) (fn.map cstringNew)
+
+/-! ### manifest layer: `CAIManifest::{from, write_box_payload}`
+
+`Store::from_jumbf_impl` reads the whole store with `read_super_box` and then turns every child super
+box into a `CAIManifest` with `CAIManifest::from`, which *re-reads* it: from its own re-serialisation
+(plain manifest) or from the Brotli-decompressed payload of its first child when that is a `brob` box
+(whatever the UUID of the enclosing box is), in both cases with a fresh depth budget.  Brotli is a
+parameter: `dec` (`BrotliDecompress` into the bounded writer; `none` = error or limit exceeded) and
+`enc` (`BrotliCompress` with default parameters). -/
+
+inductive MType | manifest | update | c2md
+  deriving DecidableEq, Repr
+
+structure Manifest where
+  compressed : Bool
+  mtype : MType
+  store : Box
+  deriving Repr
+
+def hexU (s : String) : Bytes := (fromHex? s).getD []
+def UUID_C2UM : Bytes := hexU "6332756d00110010800000aa00389b71"
+def UUID_C2MD : Bytes := hexU "63326d6400110010800000aa00389b71"
+def UUID_C2CM : Bytes := hexU "6332636d00110010800000aa00389b71"
+
+def Box.descOf : Box → Option Desc
+  | .super d _ => some d
+  | _ => none
+
+/-- the `manifest_type` computed by `CAIManifest::from`. The code compares
+`store_box.desc_box.box_uuid()` with the update / c2md UUIDs, but `box_uuid()` is the `BMFFBox` trait
+method of the description box — the constant `"jumd"` — not the `uuid()` getter, so neither comparison
+can hold and the type is always `Manifest` (no effect on the bytes: the type only feeds
+`CAIManifest::box_uuid()`; `Store::from_jumbf_impl` looks at `desc_box().uuid()` itself). -/
+def mtypeOf (_ : Box) : MType := .manifest
+
+/-- `sbox.data_box_as_brotli_box(0)` -/
+def firstBrob : Box → Option Bytes
+  | .super _ (.leaf .brob data :: _) => some data
+  | _ => none
+
+/-- `CAIManifest::from(sbox, max_manifest_size)` -/
+def manifestFrom (dec : Bytes → Option Bytes) (sbox : Box) : Res Manifest :=
+  match firstBrob sbox with
+  | some data =>
+    match dec data with
+    | none => .err .io
+    | some raw => do
+      let (b, _) ← parse raw
+      .ok ⟨true, mtypeOf b, b⟩
+  | none => do
+    let (b, _) ← parse sbox.ser
+    .ok ⟨false, mtypeOf b, b⟩
+
+/-- `desc_box().label()` (`into_string().unwrap_or_default()`) -/
+def labelStr (l : Bytes) : Bytes := if utf8Valid l then l else []
+
+/-- `CAIManifest::write_box_payload` -/
+def manifestWrite (enc : Bytes → Bytes) (m : Manifest) : Bytes :=
+  if m.compressed then
+    match m.store.descOf with
+    | some d => (Box.super (Desc.new (labelStr d.label) UUID_C2CM) [.leaf .brob (enc m.store.ser)]).ser
+    | none => []
+  else m.store.ser
+
+/-- the manifest loop at the head of `Store::from_jumbf_impl`: every child of the store box must be a
+super box (`data_box_as_superbox(idx).ok_or(JumbfBoxNotFound)`, reported here as `invalidJumbBox`) and
+is turned into a `CAIManifest` -/
+def childManifests (dec : Bytes → Option Bytes) : List Box → Res (List Manifest)
+  | [] => .ok []
+  | .super d cs :: rest => do
+    let m ← manifestFrom dec (.super d cs)
+    let ms ← childManifests dec rest
+    .ok (m :: ms)
+  | _ :: _ => .err .invalidJumbBox
+
+/-- `read_super_box` on the whole buffer, then the manifest loop -/
+def loadBoxes (dec : Bytes → Option Bytes) (x : Bytes) : Res (List Manifest) := do
+  let (b, _) ← parse x
+  match b with
+  | .super _ cs => childManifests dec cs
+  | _ => .err .invalidJumbBox
+
 /-! ### line protocol -/
 
 def fnv (bs : Bytes) : UInt64 :=
@@ -544,40 +689,99 @@ def upTo (stop : Char) : List Char → List Char × List Char
 
 def fieldsOf (cs : List Char) : List String := (String.ofList cs).splitOn ";"
 
+def byteOf? (t : String) : Option UInt8 :=
+  match t.toNat? with
+  | some n => if n < 256 then some (UInt8.ofNat n) else none
+  | none => none
+
+/-- `-` = none, otherwise a decimal `u32` -/
+def idOf? (i : String) : Option (Option Nat) :=
+  if i == "-" then some none
+  else match i.toNat? with
+    | some n => if n < 4294967296 then some (some n) else none
+    | none => none
+
+/-- `~` = none, otherwise hex -/
+def hexOpt? (s : String) : Option (Option Bytes) :=
+  if s == "~" then some none else (fromHex? s).map some
+
 partial def treeP : List Char → Option (Box × List Char)
   | 'S' :: '(' :: cs =>
     let (args, r) := upTo ')' cs
     match fieldsOf args, r with
-    | [u, t, l, i, s, p], '[' :: r' =>
-      let rec kids (r : List Char) (acc : List Box) : Option (List Box × List Char) :=
-        match r with
-        | ']' :: r'' => some (acc.reverse, r'')
-        | ',' :: r'' => kids r'' acc
-        | _ => match treeP r with
-          | some (b, r'') => kids r'' (b :: acc)
-          | none => none
-      match kids r' [] with
-      | some (cs', rest) =>
-        some (.super ⟨(fromHex? u).getD [], UInt8.ofNat t.toNat!, (fromHex? l).getD [],
-          (if i == "-" then none else some i.toNat!), hexOpt s, hexOpt p⟩ cs', rest)
-      | none => none
+    | [u, t, l, i, s, p], '[' :: r' => do
+      let u ← fromHex? u
+      let t ← byteOf? t
+      let l ← fromHex? l
+      let i ← idOf? i
+      let s ← hexOpt? s
+      let p ← hexOpt? p
+      let (cs', rest) ← kids r' []
+      some (.super ⟨u, t, l, i, s, p⟩ cs', rest)
+    | _, _ => none
+  | 'N' :: '(' :: cs =>
+    let (args, r) := upTo ')' cs
+    match fieldsOf args, r with
+    | [u, l, p], '[' :: r' => do
+      let u ← fromHex? u
+      let l ← fromHex? l
+      let p ← hexOpt? p
+      let (cs', rest) ← kids r' []
+      some (.super ((Desc.new l u).withSalt p) cs', rest)
     | _, _ => none
   | 'L' :: k :: '(' :: cs =>
     let (args, r) := upTo ')' cs
-    match leafKind? k with
-    | some kd => some (.leaf kd ((fromHex? (String.ofList args)).getD []), r)
-    | none => none
+    match leafKind? k, fromHex? (String.ofList args) with
+    | some kd, some x => some (.leaf kd x, r)
+    | _, _ => none
   | 'U' :: '(' :: cs =>
     let (args, r) := upTo ')' cs
     match fieldsOf args with
-    | [u, dt] => some (.uuid ((fromHex? u).getD []) ((fromHex? dt).getD []), r)
+    | [u, dt] => do
+      let u ← fromHex? u
+      let dt ← fromHex? dt
+      some (.uuid u dt, r)
     | _ => none
   | 'M' :: '(' :: cs =>
     let (args, r) := upTo ')' cs
     match fieldsOf args with
-    | [t, m, fn] => some (.bfdb (UInt8.ofNat t.toNat!) ((fromHex? m).getD []) (hexOpt fn), r)
+    | [t, m, fn] => do
+      let t ← byteOf? t
+      let m ← fromHex? m
+      let fn ← hexOpt? fn
+      some (.bfdb t m fn, r)
+    | _ => none
+  | 'm' :: '(' :: cs =>
+    let (args, r) := upTo ')' cs
+    match fieldsOf args with
+    | [m, fn] => do
+      let m ← fromHex? m
+      let fn ← hexOpt? fn
+      some (bfdbNew m fn, r)
     | _ => none
   | _ => none
+where
+  kids (r : List Char) (acc : List Box) : Option (List Box × List Char) :=
+    match r with
+    | ']' :: r'' => some (acc.reverse, r'')
+    | ',' :: r'' => kids r'' acc
+    | _ => match treeP r with
+      | some (b, r'') => kids r'' (b :: acc)
+      | none => none
+
+def mtypeStr : MType → String
+  | .manifest => "m" | .update => "u" | .c2md => "d"
+
+/-- the table the harness supplies for Brotli: `!` = failure, otherwise the bytes -/
+def decOf (s : String) : Option (Bytes → Option Bytes) :=
+  if s == "!" || s == "~" then some (fun _ => none)
+  else (fromHex? s).map (fun b _ => some b)
+
+def mfromReply (x : Bytes) (dec : Bytes → Option Bytes) (enc : Bytes → Bytes) : String :=
+  resStr (parse x) fun (b, _) =>
+    resStr (manifestFrom dec b) fun m =>
+      "ok c=" ++ (if m.compressed then "1" else "0") ++ " t=" ++ mtypeStr m.mtype ++ " tree=" ++ m.store.dump
+        ++ " w=" ++ lenFnv (manifestWrite enc m)
 
 def handle (toks : List String) : String :=
   match toks with
@@ -587,10 +791,14 @@ def handle (toks : List String) : String :=
     | none => "bad-hex"
   | "tree" :: rest =>
     match treeP (field rest "t").toList with
-    | some (b, _) =>
+    | some (b, []) =>
       let y := b.ser
-      "bytes=" ++ lenFnv y ++ " size=" ++ toString (b.size % 4294967296) ++ " " ++ parseReply y
-    | none => "bad-tree"
+      "bytes=" ++ lenFnv y ++ " size=" ++ resStr b.size32 toString ++ " " ++ parseReply y
+    | _ => "bad-tree"
+  | "mfrom" :: rest =>
+    match fromHex? (field rest "data"), decOf (field rest "dec"), hexOpt? (field rest "enc") with
+    | some x, some dec, some enc => mfromReply x dec (fun _ => enc.getD [])
+    | _, _, _ => "bad-req"
   | _ => "bad-op"
 
 end C2pa.C18
